@@ -124,4 +124,285 @@ theorem ctxSwitch_ok {E : Env} {F : Fixed} {st : St} {lp : Loop} {c : UInt8} (hI
                   · exact caseJSString_ok _ _ hI hlt
                   · exact ⟨_, rfl, hfall⟩
 
+
+/-- the tail of an iteration after a `fall`: the position moves at least one byte forward -/
+theorem tail_ok {E : Env} {st st' : St} {lp lp' : Loop} (c : UInt8) (_hI : LoopInv E st lp)
+    (hg : FallGood E st lp st' lp') :
+    LoopInv E (tail E st' lp' c).1 (tail E st' lp' c).2 ∧ Ext E st (tail E st' lp' c).1 ∧
+      mu E (tail E st' lp' c).1 (tail E st' lp' c).2 < mu E st lp := by
+  obtain ⟨hI', e', hpos, hlt⟩ := hg
+  -- every result of `tail` has the same base, tokens and tagIndex as `st'` and `p ≥ lp'.p + 1`
+  have key : ∀ (s : St) (l : Loop), s.base = st'.base → s.toks = st'.toks → s.tagIndex = st'.tagIndex →
+      lp'.p + 1 ≤ l.p → l.p ≤ srcLen E st' →
+      LoopInv E s l ∧ Ext E st s ∧ mu E s l < mu E st lp := by
+    intro s l hb ht hti hp hle
+    have hs : srcLen E s = srcLen E st' := by unfold srcLen; rw [hb]
+    refine ⟨⟨hb ▸ hI'.base_le, by rw [hs]; exact hle, ?_⟩, e'.of_eq hb ht, ?_⟩
+    · have := hI'.tag_le; rw [hti, hb]; omega
+    · unfold mu
+      have := attrCtx_le s.ctx
+      have hlen : st'.base + l.p ≤ E.text.length := by
+        have := hI'.base_le; unfold srcLen at hle; omega
+      rw [hb]
+      omega
+  unfold tail
+  simp only []
+  split
+  · -- newline
+    have hp1 : lp'.p + 1 ≤ (if peekIs E (newline st') (lp'.p + 1) 0x0d = true then lp'.p + 1 + 1 else lp'.p + 1) := by
+      split <;> omega
+    have hp2 : (if peekIs E (newline st') (lp'.p + 1) 0x0d = true then lp'.p + 1 + 1 else lp'.p + 1) ≤ srcLen E st' := by
+      split
+      · rename_i h; have := peekIs_lt h
+        have e : srcLen E (newline st') = srcLen E st' := rfl
+        rw [e] at this; omega
+      · omega
+    generalize (if peekIs E (newline st') (lp'.p + 1) 0x0d = true then lp'.p + 1 + 1 else lp'.p + 1) = p2 at hp1 hp2
+    have hcb := scanCodeBlock_ok (E := E) (newline st') p2 hp2
+    obtain ⟨hs, hq1, hq2⟩ := hcb
+    have hsb : (scanCodeBlock E (newline st') p2).2.2.base = st'.base := hs.base
+    have hst : (scanCodeBlock E (newline st') p2).2.2.toks = st'.toks := hs.toks
+    have hsti : (scanCodeBlock E (newline st') p2).2.2.tagIndex = st'.tagIndex := by rw [hs]; rfl
+    split
+    · exact key _ _ hsb hst hsti (by show lp'.p + 1 ≤ (scanCodeBlock E (newline st') p2).1; omega) hq2
+    · split
+      · split
+        · exact key _ _ hsb hst hsti (by show lp'.p + 1 ≤ (scanCodeBlock E (newline st') p2).1; omega) hq2
+        · exact key _ _ rfl rfl rfl hp1 hp2
+      · exact key _ _ rfl rfl rfl hp1 hp2
+  · split
+    · exact key _ _ rfl rfl rfl (Nat.le_refl _) (by show lp'.p + 1 ≤ _; omega)
+    · exact key _ _ rfl rfl rfl (Nat.le_refl _) (by show lp'.p + 1 ≤ _; omega)
+
+/-- `lexShow`, `lexStatement`, `lexStatements` -/
+theorem lexBlock_ok {E : Env} (hC : CodeSpec E) {st : St} {openT closeT n : Nat} (hb : st.base ≤ E.text.length)
+    (hn : n ≤ srcLen E st)
+    (hclose : (n = 2 ∧ (closeT = tokenRightBraces ∨ closeT = tokenEndStatement)) ∨ (n = 3 ∧ closeT = tokenEndStatements)) :
+    ∃ st' e, lexBlock E st openT closeT n = .ok (st', e) ∧ Ext E st st' ∧ st'.tagIndex = st.tagIndex ∧
+      (e = none → st.base + n + n ≤ st'.base) := by
+  unfold lexBlock
+  obtain ⟨st1, h1, e1, b1, _, t1⟩ := emitAdv_ok (E := E) (st := st) (typ := openT) (n := n) hn hb
+  simp only [h1, bind_ok]
+  obtain ⟨st2, e, h2, e2, t2, hpost⟩ := hC.lexCode_ok closeT st1 e1.le_len
+  simp only [h2, bind_ok]
+  cases e with
+  | some err => exact ⟨st2, some err, rfl, e1.trans e2, by rw [t2, t1], by intro h; cases h⟩
+  | none =>
+    simp only []
+    have hn2 : n ≤ srcLen E st2 := by
+      obtain ⟨hp1, hp2⟩ := hpost rfl
+      rcases hclose with ⟨hn', hc⟩ | ⟨hn', hc⟩
+      · have := hp1 hc; omega
+      · have := hp2 hc; omega
+    obtain ⟨st3, h3, e3, b3, _, t3⟩ := emitAdv_ok (E := E) (st := st2) (typ := closeT) (n := n) hn2 e2.le_len
+    simp only [h3, bind_ok, pure_eq_ok]
+    refine ⟨st3, none, rfl, (e1.trans e2).trans e3, by rw [t3, t2, t1], ?_⟩
+    intro _
+    have := e2.base_le
+    omega
+
+/-- what a good `Out` is: the loop can go on with a smaller measure, or stops inside the text -/
+def OutGood (E : Env) (st : St) (lp : Loop) : Out → Prop
+  | .cont st' lp' => LoopInv E st' lp' ∧ Ext E st st' ∧ mu E st' lp' < mu E st lp
+  | .stop st' _ _ => Ext E st st'
+
+theorem delim_ok {E : Env} (hC : CodeSpec E) {st : St} {lp : Loop} {which : Nat} (hI : LoopInv E st lp)
+    (h2 : lp.p + 2 ≤ srcLen E st) (hw : which ≤ 2) :
+    ∃ o, delim E st lp which = .ok o ∧ OutGood E st lp o := by
+  unfold delim
+  obtain ⟨st1, h1, e1, b1, _, t1, _⟩ := flushText_ok hI
+  simp only [h1, bind_ok]
+  have hs1 : srcLen E st1 = srcLen E st - lp.p := by unfold srcLen; rw [b1]; omega
+  -- the block
+  have hblock : ∃ st2 e, (if which = 0 then lexShow E st1
+      else if which = 1 then (if peekIs E st1 2 0x25 = true then lexStatements E st1 else lexStatement E st1)
+      else lexComment E st1) = .ok (st2, e) ∧ Ext E st1 st2 ∧ st2.tagIndex = st1.tagIndex ∧
+      (e = none → st1.base + 4 ≤ st2.base) := by
+    split
+    · obtain ⟨st2, e, h, ex, t, p⟩ := lexBlock_ok hC (E := E) (st := st1) (openT := tokenLeftBraces) (closeT := tokenRightBraces)
+        (n := 2) e1.le_len (by omega) (Or.inl ⟨rfl, Or.inl rfl⟩)
+      exact ⟨st2, e, h, ex, t, fun he => by have := p he; omega⟩
+    · split
+      · split
+        · rename_i hpk
+          have := peekIs_lt hpk
+          obtain ⟨st2, e, h, ex, t, p⟩ := lexBlock_ok hC (E := E) (st := st1) (openT := tokenStartStatements)
+            (closeT := tokenEndStatements) (n := 3) e1.le_len (by omega) (Or.inr ⟨rfl, rfl⟩)
+          exact ⟨st2, e, h, ex, t, fun he => by have := p he; omega⟩
+        · obtain ⟨st2, e, h, ex, t, p⟩ := lexBlock_ok hC (E := E) (st := st1) (openT := tokenStartStatement)
+            (closeT := tokenEndStatement) (n := 2) e1.le_len (by omega) (Or.inl ⟨rfl, Or.inr rfl⟩)
+          exact ⟨st2, e, h, ex, t, fun he => by have := p he; omega⟩
+      · obtain ⟨st2, e, h, ex, _, p⟩ := lexComment_ok (E := E) (st := st1) e1.le_len (by omega)
+        refine ⟨st2, e, h, ex, ?_, p⟩
+        -- lexComment keeps tagIndex: it only emits
+        have : ∀ st2 e, lexComment E st1 = .ok (st2, e) → st2.tagIndex = st1.tagIndex := by
+          intro st2 e hl
+          unfold lexComment at hl
+          obtain ⟨r, hr, hq⟩ := commentLoop_ok (E := E) (st := st1) (srcLen E st1 + 2) 0 2 (by omega) (by omega)
+          simp only [hr, bind_ok] at hl
+          cases r with
+          | none => simp only [fail_ok] at hl; cases hl; rfl
+          | some q =>
+            obtain ⟨hq1, hq2⟩ := hq q rfl
+            simp only [] at hl
+            have hs := SameButPos.addCol st1 2
+            obtain ⟨sa, hwk, hsa⟩ := walkCode_ok (E := E) (q - 2 - 2) 2 (addCol st1 2) (by rw [hs.srcLen]; omega)
+            simp only [walk, hwk, bind_ok] at hl
+            have hs2 : SameButPos st1 (addCol sa 2) := (hs.trans hsa).trans (SameButPos.addCol sa 2)
+            obtain ⟨sb, he, _, _, _, _, _, _, _, _, hti, _⟩ :=
+              emitAt_ok (E := E) (st := addCol sa 2) (line := st1.line) (col := st1.col) (typ := tokenComment) (n := q)
+                (by rw [hs2.srcLen]; exact hq2) (by rw [hs2.base]; exact e1.le_len)
+            simp only [he, bind_ok, pure_eq_ok] at hl
+            cases hl
+            rw [hti]; rw [hs2]
+        exact this st2 e h
+  obtain ⟨st2, e, hbl, e2, t2, hprog⟩ := hblock
+  simp only [hbl, bind_ok]
+  cases e with
+  | some err => exact ⟨_, rfl, (e1.trans e2 : Ext E st st2)⟩
+  | none =>
+    simp only []
+    have hprog' := hprog rfl
+    have hcont : ∀ (s : St) (p : Nat), SameButPos st2 s → p ≤ srcLen E st2 →
+        OutGood E st lp (.cont s { resetTok st2 { lp with p := 0 } with p := p }) := by
+      intro s p hs hp
+      refine ⟨⟨by rw [hs.base]; exact e2.le_len, by rw [hs.srcLen]; exact hp, ?_⟩, (e1.trans e2).trans (hs.ext e2.le_len), ?_⟩
+      · show s.tagIndex ≤ s.base + p
+        have : s.tagIndex = st2.tagIndex := by rw [hs]
+        rw [this, t2, t1, hs.base]
+        have := hI.tag_le; omega
+      · unfold mu
+        show 2 * (E.text.length - (s.base + p)) + attrCtx s.ctx < _
+        have := attrCtx_le s.ctx
+        have := e2.le_len
+        have := hI.pos_le
+        rw [hs.base]
+        unfold srcLen at hp
+        omega
+    split
+    · cases hm : st2.rawMarker with
+      | none =>
+        simp only []
+        exact ⟨_, rfl, hcont st2 0 (SameButPos.refl st2) (Nat.zero_le _)⟩
+      | some m =>
+        simp only []
+        obtain ⟨s, p, hsk, hs, hp⟩ := skipRawContent_ok (E := E) (st := st2) m
+        simp only [hsk, bind_ok, pure_eq_ok]
+        exact ⟨_, rfl, hcont s p hs hp⟩
+    · exact ⟨_, rfl, hcont st2 0 (SameButPos.refl st2) (Nat.zero_le _)⟩
+
+theorem step_ok {E : Env} (hC : CodeSpec E) {F : Fixed} {st : St} {lp : Loop} (hI : LoopInv E st lp)
+    (hlt : lp.p < srcLen E st) :
+    ∃ o, step E F st lp = .ok o ∧ OutGood E st lp o := by
+  unfold step
+  obtain ⟨c, hc, hpk⟩ := srcAt_ok_of_lt hlt
+  simp only [hc, bind_ok]
+  -- the update of `spacesOnly` does not matter
+  have hI' : ∀ b, LoopInv E st (if st.ctx = ContextMarkdown then { lp with spacesOnly := b } else lp) := by
+    intro b; split <;> exact ⟨hI.base_le, hI.p_le, hI.tag_le⟩
+  have hp' : ∀ b, (if st.ctx = ContextMarkdown then { lp with spacesOnly := b } else lp).p = lp.p := by
+    intro b; split <;> rfl
+  generalize hlp1 : (if st.ctx = ContextMarkdown then { lp with spacesOnly := lp.spacesOnly && isSpace c } else lp) = lp1
+  have hI1 : LoopInv E st lp1 := hlp1 ▸ hI' _
+  have hp1 : lp1.p = lp.p := hlp1 ▸ hp' _
+  have hmu : mu E st lp1 = mu E st lp := by unfold mu; rw [hp1]
+  have lift : ∀ o, OutGood E st lp1 o → OutGood E st lp o := by
+    intro o ho
+    cases o with
+    | cont s l => exact ⟨ho.1, ho.2.1, by rw [← hmu]; exact ho.2.2⟩
+    | stop s l e => exact ho
+  have hlt1 : lp1.p < srcLen E st := by rw [hp1]; exact hlt
+  have hpk1 : peek E st lp1.p = some c := by rw [hp1]; exact hpk
+  split
+  · -- Markdown backslash
+    have hs := SameButPos.addCol st 1
+    have hgood : ∀ (s : St) (p : Nat), SameButPos st s → lp1.p + 1 ≤ p → p ≤ srcLen E st →
+        OutGood E st lp (.cont s { lp1 with p := p }) := by
+      intro s p hss hp hle
+      apply lift
+      have := NextStrict.same (E := E) (st := st) (st' := s) (lp := lp1) (lp' := { lp1 with p := p }) hI1 hss.base hss.toks
+        (by show s.tagIndex ≤ s.base + p
+            have : s.tagIndex = st.tagIndex := by rw [hss]
+            rw [this, hss.base]; have := hI1.tag_le; omega)
+        (by show lp1.p < p; omega) hle
+      exact this.good hI1
+    cases hd : peek E (addCol st 1) (lp1.p + 1) with
+    | none =>
+      simp only []
+      exact ⟨_, rfl, hgood _ _ hs (Nat.le_refl _) (by omega)⟩
+    | some d =>
+      simp only []
+      have hdl := peek_some_lt_srcLen hd
+      rw [hs.srcLen] at hdl
+      split
+      · have hdr := decodeRune_drop (t := E.text) (i := (addCol st 1).base + (lp1.p + 1))
+          (by show st.base + (lp1.p + 1) < _; unfold srcLen at hdl; omega)
+        cases hrs : decodeRune (E.text.drop ((addCol st 1).base + (lp1.p + 1))) with
+        | mk r s =>
+          rw [hrs] at hdr
+          simp only []
+          refine ⟨_, rfl, hgood _ _ (hs.trans (SameButPos.addCol _ 1)) (by omega) ?_⟩
+          have hb : (addCol st 1).base = st.base := rfl
+          rw [hb] at hdr
+          unfold srcLen; omega
+      · exact ⟨_, rfl, hgood _ _ hs (Nat.le_refl _) (by omega)⟩
+  · -- delimiters
+    have hd2 : ∀ x, (if lp1.p + 1 < srcLen E st then peek E st (lp1.p + 1) else none) = some x → lp1.p + 2 ≤ srcLen E st := by
+      intro x h
+      split at h
+      · omega
+      · cases h
+    generalize hdd : (if lp1.p + 1 < srcLen E st then peek E st (lp1.p + 1) else none) = d at hd2
+    split
+    · rename_i hcond
+      obtain ⟨o, ho, hg⟩ := delim_ok hC (which := 0) hI1 (hd2 _ hcond.2.1) (by omega)
+      exact ⟨o, ho, lift o hg⟩
+    · split
+      · rename_i hcond
+        obtain ⟨o, ho, hg⟩ := delim_ok hC (which := 1) hI1 (hd2 _ hcond.2) (by omega)
+        exact ⟨o, ho, lift o hg⟩
+      · split
+        · rename_i hcond
+          obtain ⟨o, ho, hg⟩ := delim_ok hC (which := 2) hI1 (hd2 _ hcond.2) (by omega)
+          exact ⟨o, ho, lift o hg⟩
+        · split
+          · obtain ⟨s, hsk, _, hext⟩ := skip_ok (E := E) (st := st) (k := lp1.p) (by omega) hI.base_le
+            simp only [hsk, bind_ok, pure_eq_ok]
+            exact ⟨_, rfl, hext⟩
+          · obtain ⟨o, ho, hg⟩ := ctxSwitch_ok (F := F) hI1 hlt1 hpk1
+            simp only [ho, bind_ok]
+            cases o with
+            | next s l => exact ⟨_, rfl, lift _ hg⟩
+            | fall s l =>
+              simp only []
+              have := tail_ok c hI1 hg
+              refine ⟨_, rfl, lift _ ?_⟩
+              exact this
+
+theorem mainLoop_ok {E : Env} (hC : CodeSpec E) {F : Fixed} : ∀ (fuel : Nat) (st : St) (lp : Loop),
+    LoopInv E st lp → mu E st lp < fuel →
+    ∃ st' lp' e, mainLoop E F fuel st lp = .ok (st', lp', e) ∧ Ext E st st' ∧
+      (e = none → lp'.p = srcLen E st') := by
+  intro fuel
+  induction fuel with
+  | zero => intro _ _ _ h; omega
+  | succ fuel ih =>
+    intro st lp hI hf
+    unfold mainLoop
+    split
+    · rename_i hlt
+      obtain ⟨o, ho, hg⟩ := step_ok hC (F := F) hI hlt
+      simp only [ho, bind_ok]
+      cases o with
+      | cont s l =>
+        simp only []
+        obtain ⟨hI', e', hm⟩ := hg
+        obtain ⟨st', lp', e, h, ex, hp⟩ := ih s l hI' (by omega)
+        exact ⟨st', lp', e, h, e'.trans ex, hp⟩
+      | stop s l err => exact ⟨s, l, some err, rfl, hg, by intro h; cases h⟩
+    · rename_i hge
+      refine ⟨st, lp, none, rfl, Ext.refl hI.base_le, ?_⟩
+      intro _
+      have := hI.p_le; omega
+
 end ScriggoV.Lexer
